@@ -588,16 +588,29 @@ func (g *generator) renderThin(m *Module, p *gpkg) {
 		return
 	}
 	t := rl.relay[0]
+	for _, c := range rl.relay {
+		if c.tmeth || c.pmeth { // prefer a type with annotated methods: calls on the relayed value are judged too
+			t = c
+			break
+		}
+	}
 	a0, ar := p.alias[d0], p.alias[rl]
 	q := g.local("q")
 	b0 := "func Fresh() *" + a0 + "." + t.name + " { return nil } " + g.nextTag()
-	b1 := "func ViaRelay() {\n" + indent([]string{
+	stmts := []string{
 		q + " := " + ar + ".Current" + t.name + "() " + g.nextTag(),
 		q + ".X = 5 " + g.nextTag(),
 		ar + ".Default" + t.name + ".Items[0] = 1 " + g.nextTag(),
 		q + ".Cache++ " + g.nextTag(),
 		"_ = " + q + ".X",
-	}) + "}"
+	}
+	if t.tmeth {
+		stmts = append(stmts, q+".ResetForTest() "+g.nextTag(), ar+".Current"+t.name+"().ResetForTest() "+g.nextTag())
+	}
+	if t.pmeth {
+		stmts = append(stmts, q+".Internal() "+g.nextTag(), "_ = "+ar+".Default"+t.name+".Internal "+g.nextTag())
+	}
+	b1 := "func ViaRelay() {\n" + indent(stmts) + "}"
 	f0, f1 := 0, 1
 	if g.o.Reassign {
 		f0, f1 = g.lr.Intn(2), g.lr.Intn(2)
